@@ -372,6 +372,11 @@ def pyevl_line(src: str) -> str:
     return " ".join(["pyevl", hexs(src)] + parse_tokens(src))
 
 
+def pyevt_line(src: str) -> str:
+    """Python's own evaluation of a tool-call text, the registered tools bound to their names"""
+    return " ".join(["pyevt", hexs(src)] + parse_tokens(src))
+
+
 def cmet_line(forced: str, src: str) -> str:
     return " ".join(["cmet", forced, str(len(src)), hexs(src), hexs(src.lower().strip())])
 
@@ -437,6 +442,7 @@ class _State:
         self.names = []
         self.allowed = None
         self.tools_run = []
+        self.tool_beh = {}       # name -> (version, exception kind) of the body registered now
 
     def _caps(self, caps):
         from operon_ai.core.types import Capability
@@ -498,6 +504,7 @@ class _State:
             self.allowed = None if t[9] == "none" else ([] if t[9] == "-" else t[9].split(","))
             self.world = World(seed)
             self.tools = []
+            self.tool_beh = {}
             if self.sub:
                 own = {a: dict(getattr(M.Mitochondria, a)) for a in TABLE_ATTRS[:3]}
                 own["SAFE_FUNCTIONS"] = RecDict(self.world, self.names)      # overridden BEFORE construction
@@ -543,15 +550,18 @@ class _State:
             ver = int(beh[1:].split(":")[0])
             exc = beh.split(":")[1] if beh[0] == "x" else None
             self.tools = [x for x in self.tools if x[0] != name] + [(name, caps)]
+            self.tool_beh[name] = (ver, exc)
             self.m.register_function(name, self._tool_fn(name, ver, exc), required_capabilities=self._caps(caps))
             return "ok", None
         if op == "untool":
             name = unhexs(t[1])
             self.tools = [x for x in self.tools if x[0] != name]
+            self.tool_beh.pop(name, None)
             self.m.tools.pop(name, None)
             return "ok", None
         if op == "cleartools":
             self.tools = []
+            self.tool_beh = {}
             self.m.tools.clear()
             return "ok", None
         if op == "dg":
@@ -653,6 +663,37 @@ class _State:
                 head = "ok:" + show(v)
             except BaseException:  # noqa
                 head = "fail"
+            return f"{head} {{{'|'.join(w.log)}}}", None
+        if op == "pyevt":
+            # CPython's eval of a tool-call text: allow-listed names + the registered tools under their names (bodies as
+            # registered now, logging into this evaluation's own world; the callee lookup itself is not an interaction)
+            src = unhexs(t[1])
+            w = World(self.world.seed)
+            ns = RecDict(w, self.names)
+            keep_world, keep_run = self.world, list(self.tools_run)
+            self.world = w
+            try:
+                for name, _caps in self.tools:
+                    ver, exc = self.tool_beh.get(name, (0, None))
+                    fn = self._tool_fn(name, ver, exc)
+                    dict.__setitem__(ns, name, fn)
+                ns_get = ns.__class__.__getitem__
+                tool_names = {n for n, _ in self.tools}
+
+                class NS(RecDict):
+                    def __getitem__(self2, k):
+                        if k in tool_names:
+                            return dict.__getitem__(self2, k)
+                        return ns_get(self2, k)
+                ns.__class__ = NS
+                try:
+                    v = eval(compile(src, "<pyevt>", "eval"), {"__builtins__": {}}, ns)
+                    head = "ok:" + show(v)
+                except BaseException:  # noqa
+                    head = "fail"
+            finally:
+                self.world = keep_world
+                self.tools_run[:] = keep_run
             return f"{head} {{{'|'.join(w.log)}}}", None
         if op in ("cmet", "cmetn"):
             if op == "cmet":
@@ -1528,6 +1569,10 @@ def cheap(src: str) -> bool:
                 return 10 ** 26
             if fn == "pow":
                 return 10 ** 6
+            if fn == "round":      # int.__round__ with a huge negative ndigits materialises 10 ** -ndigits
+                nd = [bound(a) for a in n.args[1:2]] + [bound(k.value) for k in n.keywords if k.arg == "ndigits"]
+                if any(x > 10 ** 4 for x in nd):
+                    raise OverflowError
             return max(m * 4, 10 ** 3) if fn in ("sum",) else max(m, 10 ** 3)
         if isinstance(n, ast.BoolOp):
             return max(bound(v) for v in n.values)
